@@ -334,6 +334,31 @@ func init() {
 	regRow[float64]("float64")
 }
 
+// Partners: up to two other instantiations of e's function, the next ones in the table with another
+// destination width and with another source width.
+func Partners(e *convtab.Entry) []*convtab.Entry {
+	var out []*convtab.Entry
+	idx := 0
+	for i, o := range convtab.Entries {
+		if o == e {
+			idx = i
+		}
+	}
+	n := len(convtab.Entries)
+	for _, differs := range []func(o *convtab.Entry) bool{
+		func(o *convtab.Entry) bool { return o.D.Bits != e.D.Bits },
+		func(o *convtab.Entry) bool { return o.S.Bits != e.S.Bits },
+	} {
+		for k := 1; k < n; k++ {
+			if o := convtab.Entries[(idx+k)%n]; o.Fn == e.Fn && differs(o) {
+				out = append(out, o)
+				break
+			}
+		}
+	}
+	return out
+}
+
 var SingleOps = []string{"sampleGetSet", "appendSampleBelowCapacity", "appendSampleAtCapacity", "appendWithinCapacity", "appendWithinCapacityPartialFrames", "appendSiblingWindowWithinCapacity", "appendSelfWithinCapacity", "channelViewGetSet", "poolCycle", "poolCycleAcrossCopies", "sliceEscaping", "sliceLocal"}
 var FirstCallOps = []string{"appendSampleOnFullGrownBuffer"}
 var PairOps = []string{"write", "read", "writeStriped", "readStriped", "poolCyclesTwoTypes"}
@@ -351,6 +376,23 @@ func Check(c *Case) (res kit.Result) {
 			return
 		}
 		op = e.Prepared(c.C, c.F, c.F+c.C%2, c.Window)
+	case c.Op == "convInTurns":
+		// one call of the instantiation, then one call of each of two other instantiations of the same
+		// function (other destination widths, other source widths): the steady state of a program that
+		// converts several formats must not allocate either, whatever was converted just before
+		e := convtab.Lookup(c.T, c.U)
+		if e == nil {
+			return
+		}
+		ops := []func(){e.Prepared(c.C, c.F, c.F+c.C%2, c.Window)}
+		for _, o := range Partners(e) {
+			ops = append(ops, o.Prepared(c.C, c.F, c.F, false))
+		}
+		op = func() {
+			for _, f := range ops {
+				f()
+			}
+		}
 	case single[c.Op] != nil:
 		p := single[c.Op][c.T]
 		if p == nil {
@@ -471,6 +513,9 @@ func Gen(t *rapid.T) *Case {
 	case 0:
 		e := convtab.Entries[rapid.IntRange(0, len(convtab.Entries)-1).Draw(t, "inst")]
 		c.Op, c.T, c.U = "conv", e.S.Name, e.D.Name
+		if rapid.IntRange(0, 2).Draw(t, "inTurns") == 0 {
+			c.Op = "convInTurns"
+		}
 	case 1:
 		c.Op = rapid.SampledFrom(append(append([]string{}, SingleOps...), FirstCallOps...)).Draw(t, "op")
 		c.T = rapid.SampledFrom(names).Draw(t, "t")
